@@ -159,6 +159,9 @@ func c08Run(w *explore.Worker, c c08Case) {
 			if p.InfoProblem != "" {
 				fail("header-info-fork-size-inconsistent", p.InfoProblem)
 			}
+			if int(p.DataDecl) != len(want) {
+				fail("header-data-fork-size-is-not-the-data-that-follows", fmt.Sprintf("the DATA fork header announces %d bytes, %d data bytes (from offset %d of %d) follow", p.DataDecl, len(want), k, len(data)))
+			}
 			if p.Name != c.Disk {
 				fail("header-name-wrong", fmt.Sprintf("name %q (length field says %d) for file %q", p.Name, len(p.Name), c.Disk))
 			}
